@@ -39,6 +39,11 @@ TIES = {
                           "signer.Sessions.New (expiry: lifetime cap)", "signer.Sessions.Check",
                           "signer.TimeSigner.Check", "jwt.CheckTime", "roles.subtleStringEq",
                           "roles.checkPassCode"]},
+    "C08": {"area": "Jsonx", "gen": "Lexing", "refine": "CodeRefine", "cands": "CodeCands",
+            "functions": ["lexing.ErrorList.Add", "lexing.IsDigit/IsLetter/IsHexDigit/IsIdentLetter/IsWhite",
+                          "lexing.lexLineComment", "lexing.lexBlockComment", "lexing.LexRawString",
+                          "lexing.LexIdent", "lexing.LexNumber", "lexing.digitVal", "lexing.lexEscape",
+                          "lexing.LexString"]},
     "C10": {"area": "Caco", "refine": "CodeRefineBuild", "cands": "CodeCandsBuild",
             "functions": ["caco3.sameFileStat"]},
     "C14": {"area": "Sni", "refine": "CodeRefineHello", "cands": "CodeCandsHello",
@@ -152,7 +157,7 @@ def run(ck, pid):
     if not ok:
         code_cex(ck, tie["area"], tie["cands"])
     ck.coverage["semantic_tie"] = {"functions": tie["functions"], "proved": ok,
-                                   "files": [props, refine, "theories/Gen/Code%s.v" % tie["area"]]}
+                                   "files": [props, refine, "theories/Gen/Code%s.v" % tie.get("gen", tie["area"])]}
     ck.trusted.append("translator gen/gotrans.go + Lib/GoLib.v: Go body -> Gallina on every run, proved equal to "
                       "the model for all inputs (SEMANTIC_TIE: %s)" % ", ".join(tie["functions"]))
     ck.timings["code_tie"] = round(time.time() - t, 2)
